@@ -86,7 +86,26 @@ mod x86_64 {
             asm!("pushfq; pop {}", out(reg) r, options(nomem, preserves_flags));
         }
 
+        #[cfg(feature = "verif_hooks")]
+        let r = verif_overlay_if(r);
+
         r
+    }
+
+    /// Verification hook (feature `verif_hooks`): `pushfq` cannot be trapped in user mode and
+    /// always shows IF = 1 there; a harness that emulates `cli`/`sti` stores its emulated
+    /// interrupt flag here (0 = no overlay, 1 = IF clear, 2 = IF set).
+    #[cfg(feature = "verif_hooks")]
+    pub static VERIF_IF_OVERLAY: core::sync::atomic::AtomicU8 = core::sync::atomic::AtomicU8::new(0);
+
+    #[cfg(feature = "verif_hooks")]
+    #[inline]
+    fn verif_overlay_if(r: u64) -> u64 {
+        match VERIF_IF_OVERLAY.load(core::sync::atomic::Ordering::Relaxed) {
+            1 => r & !RFlags::INTERRUPT_FLAG.bits(),
+            2 => r | RFlags::INTERRUPT_FLAG.bits(),
+            _ => r,
+        }
     }
 
     /// Writes the RFLAGS register, preserves reserved bits.
